@@ -6,12 +6,12 @@ P=$1; N=$2; TIER=${3:-quick}; R=${4:-1}
 if [ "$R" = "1" ]; then S=/tmp/seed-$P/$N; W=/tmp/wt-$P; D=seeded/$P-$N; else S=/tmp/seed$R-$P/$N; W=/tmp/wt$R-$P; D=seeded/$P-r$R-$N; fi
 [ -f $S/patch.diff ] || { echo "no $S/patch.diff"; exit 2; }
 mkdir -p $D; cp $S/patch.diff $S/demo.py $D/; [ -f $S/notes.txt ] && cp $S/notes.txt $D/
-git -C $W checkout -q -- . ; 
+git -C $W checkout -q -- . ; git -C $W clean -fdq
 ( cd $W && PYTHONPATH=$W/src /venv/bin/python $S/demo.py >/dev/null 2>&1 ); clean_demo=$?
 git -C $W apply $S/patch.diff || { echo "patch does not apply"; exit 2; }
 tests=$( cd $W && PYTHONPATH=$W/src /venv/bin/python -m pytest -q -p no:cacheprovider tests 2>&1 | tail -1 )
 ( cd $W && PYTHONPATH=$W/src /venv/bin/python $S/demo.py >/dev/null 2>&1 ); mut_demo=$?
-git -C $W checkout -q -- .
+git -C $W checkout -q -- .; git -C $W clean -fdq   # (a change may add files)
 echo "worktree: demo clean exit=$clean_demo, with change exit=$mut_demo, tests: $tests"
 if [ -n "$SEEDEVAL_WORKTREE" ]; then
   # a background sweep is reading /repo/src: run the check against the scratch worktree moved to /repo's HEAD with the change applied
@@ -22,7 +22,7 @@ if [ -n "$SEEDEVAL_WORKTREE" ]; then
   PYMODES_SRC=$W/src VERIF_EVIDENCE_DIR=$E ./check $P --tier $TIER > /tmp/seedeval.$P.$N.log 2>&1; rc=$?
   rm -rf $E
   t1=$(date +%s)
-  git -C $W reset -q --hard; git -C $W checkout -q -- .
+  git -C $W reset -q --hard; git -C $W checkout -q -- .; git -C $W clean -fdq
   leg=$(grep "failing leg" /tmp/seedeval.$P.$N.log | head -1 | cut -c1-260)
   echo "check $P ($TIER, worktree at /repo HEAD): exit=$rc in $((t1-t0))s $leg"
   cat > $D/meta.json <<EOM
@@ -48,7 +48,7 @@ E=$(mktemp -d /var/tmp/seedev.XXXX)
 VERIF_EVIDENCE_DIR=$E ./check $P --tier $TIER > /tmp/seedeval.$P.$N.log 2>&1; rc=$?
 rm -rf $E
 t1=$(date +%s)
-git -C /repo reset -q --hard HEAD
+git -C /repo reset -q --hard HEAD; git -C /repo clean -fdq -- src   # (a change may add files under src)
 git -C /repo status --short | head -3
 leg=$(grep "failing leg" /tmp/seedeval.$P.$N.log | head -1 | cut -c1-260)
 echo "check $P ($TIER): exit=$rc in $((t1-t0))s $leg"
